@@ -26,7 +26,7 @@ UNSYNC_OBSERVERS = ['unsync::cache::Cache::contains_key', 'unsync::cache::Cache:
 
 
 def is_deadline(t):
-    return any(isinstance(x, tuple) and x and x[0] == 'call' and str(x[1]).endswith('Instant::checked_add') for x in subterms(t))
+    return any(isinstance(x, tuple) and x and x[0] == 'call' and str(x[1]).endswith('::checked_add') for x in subterms(t))
 
 
 def expiry_atom(c, v):
